@@ -120,6 +120,15 @@ theorem C18_delete_refines_partial (H : Hashes) (dl : Nat) {s : State} (hi : Inv
     abs (step H dl s (.deleteObject b k)).1 = (StoreSpec.step H (abs s) (.deleteObject b k)).1 ∧
     Inv (step H dl s (.deleteObject b k)).1 := delete_refines H dl hi hg
 
+/-- delete_objects: all named objects are gone, all are reported. Partial — excluded: keys that do not exist
+    (fs:delete-objects-omits-missing-keys), repeated keys (fs:delete-objects-duplicate-key), a missing bucket
+    (fs:delete-objects-in-missing-bucket), non-canonical keys; error answers are not covered -/
+theorem C18_delete_objects_refines_partial (H : Hashes) (dl : Nat) {s : State} (hi : Inv s) {b : Bytes}
+    {keys : List Bytes} (hg : DeleteObjectsOk s b keys) :
+    (step H dl s (.deleteObjects b keys)).2 = (StoreSpec.step H (abs s) (.deleteObjects b keys)).2 ∧
+    abs (step H dl s (.deleteObjects b keys)).1 = (StoreSpec.step H (abs s) (.deleteObjects b keys)).1 ∧
+    Inv (step H dl s (.deleteObjects b keys)).1 := deleteObjects_refines H dl hi hg
+
 /-- copy_object: the destination becomes the source's content, metadata and checksums. Partial — excluded: copy onto
     itself (fs:copy-onto-itself-destroys-object), a destination metadata file the source lacks
     (fs:stale-metadata-after-copy), differing recorded checksums (fs:stale-checksum-after-copy), missing source bucket -/
@@ -230,7 +239,7 @@ theorem C18_abort_refines_partial (H : Hashes) (dl : Nat) {s : State} (hi : Inv 
 
 /-! ## one request, whole histories -/
 
-/-- any request in `Good` (the per-operation predicates; `delete_objects` is not covered) -/
+/-- any request in `Good` (the disjunction, by operation, of the per-operation predicates) -/
 theorem C18_step_refines_partial (H : Hashes) (dl : Nat) {s : State} (hi : Inv s) {op : Op} (hg : Good s op) :
     (step H dl s op).2.core = (StoreSpec.step H (abs s) op).2.core ∧
     abs (step H dl s op).1 = (StoreSpec.step H (abs s) op).1 ∧ Inv (step H dl s op).1 :=
@@ -290,7 +299,7 @@ def demo : List Op := [
   .getObject bka kX none,
   .createMultipartUpload bob bka kA none,
   .abortMultipartUpload bob bka kA (some 2),
-  .deleteObject bka kDE, .deleteObject bka kDF, .deleteObject bka kX,
+  .deleteObjects bka [kDE, kDF], .deleteObject bka kX,
   .deleteBucket bka,
   .listBuckets ]
 
